@@ -7,6 +7,36 @@ From BP Require Import Model.Object Model.Eq Model.TimeCore Model.Encode Model.D
 From BP Require Import gen.Tables Proofs.BytesP Proofs.LenP Proofs.C01Scalar Proofs.C01Frame Proofs.C01Step Proofs.C01Apply
      Proofs.C01Elem Proofs.C01Field Proofs.C01Builtin Proofs.C01Unfold Proofs.C01Value Proofs.C01Slot.
 
+Lemma all_fix_forall (P : pv -> bool) l :
+  (fix all (l : list pv) : bool := match l with [] => true | y :: l' => P y && all l' end) l = true ->
+  Forall (fun y => P y = true) l.
+Proof.
+  induction l as [|y l IH]; intros H; [constructor|]. apply andb_true_iff in H as [H1 H2]. constructor; auto.
+Qed.
+
+Lemma norm_elem_not_list sc t p y vs : elem_in_range sc t p y = true -> norm_elem (norm_obj sc) t y <> PList vs.
+Proof.
+  destruct y; try discriminate; cbn [norm_elem]; intros H; try (destruct t; discriminate).
+  destruct p; try discriminate H; destruct t; discriminate H.
+Qed.
+
+Lemma preprocess_packed_nonempty msg t x a :
+  tmem t PACKED_TYPES = true -> scalar_in_range t x = true -> preprocess_with msg t None x = Ok a -> a <> [].
+Proof.
+  intros Ht Hr Ha. destruct (tmem t FIXED_TYPES) eqn:Hf.
+  - destruct (scalar_fixed_rt t x Hf Hr) as (a' & Pa & La & _).
+    rewrite preprocess_fixed in Ha by exact Hf. rewrite Pa in Ha. injection Ha as <-.
+    unfold fixed_size in La. destruct a'; [destruct (tmem t WIRE_FIXED_32_TYPES); discriminate|discriminate].
+  - assert (Hv : tmem t WIRE_VARINT_TYPES = true)
+      by (destruct t; try reflexivity; vm_compute in Hf; vm_compute in Ht; discriminate).
+    destruct (scalar_varint_rt msg t x Hv Hr) as (a' & n & Pa & Na & _). rewrite Pa in Ha. injection Ha as <-. exact Na.
+Qed.
+
+Lemma packed_scalar nc ne t p :
+  tmem t PACKED_TYPES = true -> pyty_fits nc ne t p = true ->
+  match p with PyMsg _ | PyDatetime | PyTimedelta => False | _ => True end.
+Proof. destruct t, p; cbn; intros H1 H2; try discriminate; exact I. Qed.
+
 Section Slot2.
   Variables (sc : schema) (fuel' : nat) (c : nat).
   Hypothesis Hbi : builtins_exact sc = true.
@@ -157,4 +187,133 @@ Section Slot2.
       { unfold norm_slot. rewrite Hs. reflexivity. }
       rewrite Hn. unfold cur_sel. rewrite Hs. exact Hfeed.
   Qed.
+
+  (* ---- repeated fields ---- *)
+  Section Repeated.
+    Variable p : pyty.
+    Hypothesis Hh : fhint f = HList p.
+
+    Lemma list_facts :
+      fopt f = false /\ fwraps f = None /\ fgroup f = None /\ ptype_eqb (fty f) TMap = false /\
+      pyty_fits nc ne (fty f) p = true /\ sel = None /\ default_of sc f = PList [] /\ fresh_of f = PPlaceholder.
+    Proof.
+      destruct (wf_list _ _ _ _ Hwf Hh) as (Hfo & Hfw & _ & Hg & Hmap & Hfit).
+      repeat split; auto.
+      - apply group_none_sel. exact Hg.
+      - unfold default_of. rewrite Hh. reflexivity.
+      - unfold fresh_of. rewrite Hfo. reflexivity.
+    Qed.
+
+    Definition item_bytes (item : pv) : result (list byte) :=
+      do r <- serialize_with (msg_bytes (enc_obj sc)) (fnum f) (fty f) item true (fwraps f);
+      Ok (match r with [] => [x0a; x00] | _ => r end).
+
+    Lemma unpacked_items items : forall acc rawQ,
+      ((nth i rawQ PPlaceholder = PPlaceholder /\ acc = []) \/ nth i rawQ PPlaceholder = PList acc) ->
+      (i < length rawQ)%nat ->
+      Forall (fun y => elem_in_range sc (fty f) p y = true) items -> Forall (elemP (Good sc)) items ->
+      exists bs, concat_map item_bytes items = Ok bs /\ (items <> [] -> bs <> []) /\
+        (small bs -> (length bs <= fuel')%nat ->
+         feeds fuel' sc cd (Obj c rawQ true unk curP) bs
+               (Obj c (match items with
+                       | [] => rawQ
+                       | _ => set_nth i (PList (acc ++ map (norm_elem (norm_obj sc) (fty f)) items)) rawQ
+                       end) true unk curP)).
+    Proof.
+      destruct list_facts as (Hfo & Hfw & Hg & Hmap & Hfit & Hsel & Hdef & _).
+      induction items as [|y items IH]; intros acc rawQ Hslot HlenQ Hin HGs.
+      { exists []. split; [reflexivity|]. split; [congruence|]. intros _ _. apply feeds_nil. }
+      inversion Hin as [|? ? Hy Hin']; subst. inversion HGs as [|? ? Gy HGs']; subst.
+      pose proof (elem_any sc Hbi fuel' nc ne (fty f) p y Hfit Hy Gy) as He.
+      destruct (He (fnum f) true (wf_field_num _ _ _ Hwf)) as (b1 & E1 & _ & Hne1 & Hd1).
+      specialize (Hne1 eq_refl).
+      set (v' := norm_elem (norm_obj sc) (fty f) y).
+      set (rawQ' := set_nth i (PList (acc ++ [v'])) rawQ).
+      destruct (IH (acc ++ [v']) rawQ') as (b2 & E2 & Hne2 & F2); auto.
+      { right. unfold rawQ'. apply nth_set_nth_same. exact HlenQ. }
+      { unfold rawQ'. rewrite set_nth_length. exact HlenQ. }
+      rewrite concat_map_cons. unfold item_bytes at 1. rewrite Hfw, E1. cbn [bind].
+      assert (Hb1 : (match b1 with [] => [x0a; x00] | _ => b1 end) = b1) by (destruct b1; [congruence|reflexivity]).
+      rewrite Hb1. fold item_bytes. rewrite E2. cbn [bind].
+      exists (b1 ++ b2). split; [reflexivity|]. split; [intros _; apply app_nonempty_l; exact Hne1|].
+      intros Hsm Hl. rewrite app_length in Hl.
+      destruct (Hd1 Hne1 (small_app_l _ _ Hsm) ltac:(lia)) as (pr & Rd & Hpn & Hdec).
+      destruct (Hdec f eq_refl) as (Hfit' & Hval); [rewrite Hh; reflexivity | exact Hfw |].
+      eapply feeds_app.
+      - eapply feeds_one; [exact Rd|].
+        assert (Hn' : field_by_number (get_class sc c) (pnum pr) = Some (i, f))
+          by (rewrite Hpn; apply field_by_number_unique; assumption).
+        exact (step_list fuel' sc c rawQ unk curP i f pr v' acc Hf Hn' Hfit' Hval Hmap Hg Hdef Hslot).
+      - assert (Hv : (match v' with PList vs => acc ++ vs | _ => acc ++ [v'] end) = acc ++ [v']).
+        { pose proof (norm_elem_not_list sc (fty f) p y) as Hnl. fold v' in Hnl.
+          destruct v'; try reflexivity. exfalso. eapply Hnl; eauto. }
+        rewrite Hv. fold rawQ'.
+        specialize (F2 (small_app_r _ _ Hsm) ltac:(lia)).
+        eapply feeds_eq; [exact F2|].
+        destruct items as [|y2 items]; [reflexivity|].
+        unfold rawQ'. rewrite set_nth_twice. cbn [map]. rewrite <- app_assoc. reflexivity.
+    Qed.
+
+    Lemma slot_list l :
+      slot_in_range sc f (PList l) = true -> Forall (elemP (Good sc)) l -> slot_goal (PList l).
+    Proof.
+      intros Hr HG. destruct list_facts as (Hfo & Hfw & Hg & Hmap & Hfit & Hsel & Hdef & Hfr).
+      assert (Hin : Forall (fun y => elem_in_range sc (fty f) p y = true) l).
+      { unfold slot_in_range in Hr. rewrite Hh in Hr. apply all_fix_forall in Hr. exact Hr. }
+      assert (Hemit : enc_slot sc cur i f (PList l) = emit_field (enc_obj sc) sc f None (PList l))
+        by (unfold enc_slot; fold sel; rewrite Hsel; reflexivity).
+      destruct l as [|y l'].
+      { apply slot_skipped.
+        - rewrite Hemit. unfold emit_field. cbn [is_default]. rewrite Hh, Hg, Hfo. reflexivity.
+        - right. right. cbn [is_default]. rewrite Hh. reflexivity.
+        - unfold norm_slot. rewrite Hsel. reflexivity.
+        - unfold cur_sel. rewrite Hsel. reflexivity. }
+      set (l := y :: l') in *.
+      assert (Hnorm : norm_slot sc (norm_obj sc) f sel (PList l) = PList (map (norm_elem (norm_obj sc) (fty f)) l))
+        by (unfold norm_slot; rewrite Hsel; reflexivity).
+      assert (Hcur : cur_sel sel f i curP = curP) by (unfold cur_sel; rewrite Hsel; reflexivity).
+      assert (Hemit2 : emit_field (enc_obj sc) sc f None (PList l) =
+                       if tmem (fty f) PACKED_TYPES
+                       then (do buf <- concat_map (preprocess_with (msg_bytes (enc_obj sc)) (fty f) None) l;
+                             serialize_with (msg_bytes (enc_obj sc)) (fnum f) TBytes (PBytes buf) false None)
+                       else concat_map item_bytes l).
+      { unfold emit_field. cbn [is_default]. rewrite Hh. cbn [andb]. reflexivity. }
+      unfold slot_goal. rewrite Hnorm, Hcur, Hemit, Hemit2.
+      destruct (tmem (fty f) PACKED_TYPES) eqn:Hpk.
+      - (* packed *)
+        pose proof (packed_scalar _ _ _ _ Hpk Hfit) as Hps.
+        assert (Hsr : Forall (fun x => scalar_in_range (fty f) x = true) l).
+        { eapply Forall_impl; [|exact Hin]. intros x Hx. rewrite <- (scalar_elem_in_range sc (fty f) p x Hps). exact Hx. }
+        destruct (packed_rt (msg_bytes (enc_obj sc)) (fty f) l Hpk Hsr) as (buf & Eb & Ub).
+        assert (Hbuf : buf <> []).
+        { unfold l in Eb. rewrite concat_map_cons in Eb.
+          destruct (preprocess_with (msg_bytes (enc_obj sc)) (fty f) None y) as [a|] eqn:Ea; [|discriminate].
+          cbn [bind] in Eb. destruct (concat_map _ l') as [b|]; [|discriminate]. cbn [bind] in Eb. injection Eb as <-.
+          apply app_nonempty_l. eapply preprocess_packed_nonempty; eauto. inversion Hsr; assumption. }
+        rewrite Eb. cbn [bind].
+        destruct (ser_len2 (msg_bytes (enc_obj sc)) (fnum f) TBytes (PBytes buf) false None buf eq_refl
+                           (wf_field_num _ _ _ Hwf) eq_refl) as (bs & Es & _ & _ & Hne & Hrd).
+        exists bs. split; [exact Es|]. specialize (Hne (or_introl Hbuf)). split; [congruence|].
+        intros Hsm Hl. destruct (Hrd Hne Hsm) as (Rd & Hlb).
+        eapply feeds_one; [exact Rd|].
+        assert (Hn' : field_by_number (get_class sc c) (pnum (mkP (fnum f) 2 0 buf bs)) = Some (i, f))
+          by (apply field_by_number_unique; assumption).
+        assert (Hfit' : wire_type_fits f (pwt (mkP (fnum f) 2 0 buf bs)) = true).
+        { unfold wire_type_fits. cbn [pwt]. change (2 =? WIRE_VARINT) with false. change (2 =? WIRE_FIXED_32) with false.
+          change (2 =? WIRE_FIXED_64) with false. change (2 =? WIRE_LEN_DELIM) with true. cbv iota.
+          rewrite Hpk, Hh. apply orb_true_r. }
+        assert (Hval : decode_value fuel' sc f (mkP (fnum f) 2 0 buf bs) = Ok (PList (map (norm_scalar (fty f)) l))).
+        { unfold decode_value. cbn [pwt pbytes]. change (2 =? WIRE_LEN_DELIM) with true. rewrite Hpk. cbn [andb].
+          rewrite Ub by lia. reflexivity. }
+        eapply eq_trans; [exact (step_list fuel' sc c rawP unk curP i f _ _ [] Hf Hn' Hfit' Hval Hmap Hg Hdef
+                                           (or_introl (conj (eq_trans Hfresh Hfr) eq_refl)))|].
+        cbn [app]. do 4 f_equal. apply map_ext_in. intros x Hx.
+        rewrite Forall_forall in Hsr. symmetry. apply scalar_not_msg. apply Hsr. exact Hx.
+      - (* one record per element *)
+        destruct (unpacked_items l [] rawP) as (bs & Eb & Hne & Hfeed); auto.
+        { left. split; [rewrite Hfresh; exact Hfr | reflexivity]. }
+        exists bs. split; [exact Eb|]. split; [intros Hb; exfalso; apply Hne; [discriminate | exact Hb]|].
+        exact Hfeed.
+    Qed.
+  End Repeated.
 End Slot2.
